@@ -192,7 +192,7 @@ static inline int c_slots_post(const struct Arena* a, const uint8_t* ret, MB* cu
 #endif
 
 
-#ifdef HAVE_STRUCT_Arena_DynamicBlock
+#if defined(HAVE_STRUCT_Arena_DynamicBlock) && defined(HAVE_STRUCT_Arena_ReusableSlot)
 /* ---- Arena::free_reusable (+ _release_dynamic): a released block of a slot class becomes the head of exactly its class list (so that
  *      the next _alloc_reusable of that class may hand it out again - "recycles only released ones"); a dynamic block is unlinked
  *      from the doubly linked list and freed, the other blocks stay linked. Dynamic list: the block itself plus at most one other. -- */
